@@ -36,6 +36,7 @@ type c15state struct {
 	types    map[int]int     // oracle: type name -> current definition
 	lastFail string          // "", "cfail", "panic": outcome of the latest input
 	lastType bool            // the latest successful input redefined a named type
+	scopeBad bool            // the latest input failed in a statement that had opened a scope
 	diverged bool
 }
 
@@ -141,6 +142,10 @@ func c15parse(it string) (c15item, bool) {
 		}
 		if w[1] == "type" {
 			return c15item{w, `var _ int = "x"`}, true
+		}
+		if w[1] == "scope" {
+			// a STATEMENT that fails to compile after it opened a local scope
+			return c15item{w, "for i := 0; i < 1; i++ { undefinedname }"}, true
 		}
 		return c15item{w, "var _ = undefinedname"}, true
 	case "boom":
@@ -431,10 +436,20 @@ func c15exec(op string) Result {
 		if status != expect && !st.diverged {
 			r.Viol = fmt.Sprintf("input %q: interpreter says %s, Go's rules on the definitions so far say %s", src, status, expect)
 			r.Key = "status-" + status + "-want-" + expect
+			if st.scopeBad && status == "panic" {
+				r.Key = "failed-input-code-runs-later"
+				r.Viol += " (the previous input failed to compile inside a statement with a local scope: its PushEnv was left in the code buffer and runs now)"
+			}
 			r.Tags = append(r.Tags, "viol:"+r.Key)
 			st.diverged = true
 		}
 		st.lastFail, st.lastType = "", false
+		st.scopeBad = false
+		for _, it := range items {
+			if it.w[0] == "bad" && it.w[1] == "scope" {
+				st.scopeBad = true
+			}
+		}
 		switch expect {
 		case "cfail":
 			st.lastFail = "cfail"
@@ -517,7 +532,9 @@ func c15exec(op string) Result {
 
 func c15randItem(r *rand.Rand, names, tnames int, failing bool) string {
 	if failing {
-		switch r.Intn(4) {
+		switch r.Intn(5) {
+		case 4:
+			return "bad scope"
 		case 0:
 			return "bad undef"
 		case 1:
@@ -580,6 +597,10 @@ func c15inOrder(items []string) bool {
 			if i != len(items)-1 {
 				return false
 			}
+		case "bad":
+			if len(w) > 1 && w[1] == "scope" && i != len(items)-1 {
+				return false
+			}
 		}
 		if declared != "" {
 			// the declarations of one name are grouped by the sorter: allowed only when adjacent
@@ -621,7 +642,7 @@ func c15generate(r *rand.Rand, tier string, emit func(string)) {
 	//     third successful input, reading every name and every type name after each
 	alpha := []string{"var 0 1 5", "var 0 0 6", "var 0 2 6", "var 0 3 1", "var 4 0 8", "var 6 2 3", "varT 0 0 9", "varT 3 0 4", "varT 3 7 4",
 		"const 1 0 2", "const 0 1 3", "func 2 1 7 ok", "func 2 0 7 bad", "func 0 0 7 ok", "func 5 0 1 bad", "typ 0 2", "typ 1 3",
-		"alias 0 1", "alias 2 0", "alias 0 7", "bad undef", "bad type", "boom"}
+		"alias 0 1", "alias 2 0", "alias 0 7", "bad undef", "bad type", "bad scope", "boom"}
 	prefix := "in var 0 0 7|const 1 1 3|func 2 0 9 ok|typ 0 1|varT 3 0 5|typ 1 4"
 	var inputs []string
 	for _, a := range alpha {
@@ -636,7 +657,7 @@ func c15generate(r *rand.Rand, tier string, emit func(string)) {
 	}
 	// (1b) every pair of items that (re)declare the SAME name (twice in one input), followed by each kind of
 	//      failure, and the same with a third re-declaration: the journal must be replayed newest-first
-	fails := []string{"bad undef", "bad type", "func 5 0 1 bad", "varT 6 7 1", "alias 2 7"}
+	fails := []string{"bad undef", "bad type", "bad scope", "func 5 0 1 bad", "varT 6 7 1", "alias 2 7"}
 	for _, a := range alpha {
 		for _, b := range alpha {
 			if d := c15declared(a); d == "" || d != c15declared(b) {
@@ -723,7 +744,7 @@ func c15generate(r *rand.Rand, tier string, emit func(string)) {
 func init() {
 	register(&Prop{
 		ID:   "C15",
-		Rule: "bounded-exhaustive: after a fixed prefix (int variable, string constant, function, named type, variable of it) every input of 1 or 2 items over a 23-item alphabet (re-declarations of each kind with the same/another type incl. int/float64/bool/string, type aliases, failing function body, undefined type, undefined identifier, type error, run-time panic), every pair of re-declarations of ONE name followed by each kind of failure, + the syntax error; every name (class, type, slot, value) and every type name read back after each input; plus random histories over small name pools (inputs of 1-5 items, a failing item at a random position in a third of them). Non-trivial: inputs and reads of bound names; distinct by (status, item kinds, failing position) / (observation, outcome of the latest input).",
+		Rule: "bounded-exhaustive: after a fixed prefix (int variable, string constant, function, named type, variable of it) every input of 1 or 2 items over a 24-item alphabet (re-declarations of each kind with the same/another type incl. int/float64/bool/string, type aliases, failing function body, undefined type, undefined identifier, type error, run-time panic), every pair of re-declarations of ONE name followed by each kind of failure, + the syntax error; every name (class, type, slot, value) and every type name read back after each input; plus random histories over small name pools (inputs of 1-5 items, a failing item at a random position in a third of them). Non-trivial: inputs and reads of bound names; distinct by (status, item kinds, failing position) / (observation, outcome of the latest input).",
 		Gen:  c15generate,
 		Exec: c15exec,
 		Exhaustive: func(tier string) bool {
